@@ -49,7 +49,7 @@ CLAIMS["C05"] = dict(engine="E1", technique="CrossHair symbolic execution (z3 st
     ref="DESIGN.md §4 C05")
 
 CLAIMS["C02"] = dict(engine="E1+E2", technique="CrossHair symbolic execution (z3) of the real JWE decryption code with opaque codecs, fake native keys and solver-chosen unwrap/AEAD verdicts; pysym/z3 for the CBC-HMAC MAC-input/key-split/tag-compare kernel and the IV size gate",
-    text="For every key-management mode in the bound, both content-encryption classes, every IV/tag/CEK length class, presence of the "
+    text="For every key-management mode in the bound (incl. ECDH-1PU direct and +A128KW with the sender's key), both content-encryption classes, every IV/tag/CEK length class, presence of the "
          "encrypted key, zip, AAD, epk validity, 1..2 recipients and every combination of primitive verdicts, each path of "
          "decrypt_compact/decrypt_json returns only if the AEAD was asked once, answered valid, about AAD = the received protected "
          "segment [.aad], the decoded IV of the right size and the whole tag, under the CEK recovered from this token (same for all "
@@ -70,7 +70,7 @@ CLAIMS["C15"] = dict(engine="E1", technique="CrossHair symbolic execution (z3) o
     ref="DESIGN.md §4 C15")
 CLAIMS["C06"] = dict(engine="E1+E2", technique="CrossHair symbolic execution (z3) of the real operations with fake native keys (symbolic key sizes) against the statement's key-suitability table; pysym/z3 for the unsafe-secret prefix check",
     text="For every algorithm x key kind x private/public x use x key_ops x operation inside the bounds (oct length and RSA modulus size "
-         "symbolic) an operation returns only if the statement's table allows it; every byte string starting with a PEM/OpenSSH marker "
+         "symbolic) an operation (compact for every size; flattened / general JSON JWE with the key given, attached to the recipient or returned by a callable) returns only if the statement's table allows it; every byte string starting with a PEM/OpenSSH marker "
          "triggers the warning.",
     ref="DESIGN.md §4 C06")
 
@@ -82,7 +82,7 @@ CLAIMS["C03"] = dict(engine="E1+E2", technique="CrossHair symbolic execution (z3
 CLAIMS["C04"] = dict(engine="E1", technique="CrossHair symbolic execution (z3) of encrypt->decrypt in an ideal-primitive environment (AEAD/key-wrap/RSA tables, opaque KDF and ECDH), with producer-operand conformance",
     text="For the alg x enc pairs in the bound, zip, three serializations, header placements, AAD, apu/apv, key or key set, 1-2 recipients of mixed algorithms and every "
          "plaintext/AAD up to the bound: decryption of what was encrypted returns the plaintext and the header members in their positions plus exactly the members the "
-         "algorithm adds; direct modes with several recipients and ECDH-1PU key wrapping with a non-CBC-HMAC enc are refused at encryption time.", ref="DESIGN.md §4 C04")
+         "algorithm adds; 2-3 header-less recipients sharing alg all decrypt; one recipient of a mixed-type pair decrypts with only its own key; direct modes with several recipients and ECDH-1PU key wrapping with a non-CBC-HMAC enc are refused at encryption time.", ref="DESIGN.md §4 C04")
 CLAIMS["C07"] = dict(engine="E1+E2", technique="operand-conformance conditions of the C01/C03 CrossHair harnesses against an RFC 7518 parameter table + pysym/z3 codec kernels; interop run vs an independent implementation as translation validation",
     text="The signing input, key octets, padding/hash/MGF/salt parameters and the R||S layout handed to / taken from the primitives equal the RFCs' on both the producing "
          "and the consuming side for every algorithm, and the consumer uses the received header octets whatever their JSON spelling; 390 concrete exchanges with an "
@@ -101,21 +101,21 @@ CLAIMS["C11"] = dict(engine="E2+E1", technique="pysym/z3 on the JWK export/impor
          "right encoding, format and encryption.", ref="DESIGN.md §4 C11")
 CLAIMS["C12"] = dict(engine="E1", technique="CrossHair symbolic execution (z3) of every exporting method and of the token-producing round trips with fake keys whose private accessors return distinctive values; transitive scan of the outputs",
     text="Public JWK / key-set exports contain no private member for any combination of private-named members in the stored JWK (incl. public-only keys carrying CRT "
-         "members and extra parameters); private exports of public-only keys are errors; produced tokens, epk headers and thumbprint inputs contain no private member, "
+         "members and extra parameters, keys generated as public-only with or without auto_kid, two-key sets of any type mix); private exports of public-only keys are errors; produced tokens, epk headers and thumbprint inputs contain no private member, "
          "octets or integers.", ref="DESIGN.md §4 C12")
 CLAIMS["C13"] = dict(engine="E1+E2", technique="CrossHair symbolic execution (z3) of thumbprint/ensure_kid/KeySet with opaque JSON and a recording hash; pysym/z3 for the member encodings feeding the digest",
     text="The hashed text is the compact JSON of exactly the required members in sorted order under the selected digest for every key type, form, member order and "
          "optional member set; an auto kid equals the thumbprint, a present kid (even empty) is never overwritten and is stable.", ref="DESIGN.md §4 C13")
 CLAIMS["C14"] = dict(engine="E1", technique="CrossHair symbolic execution (z3) of KeySet lookups and of the consuming / producing operations with key sets (random.choice = symbolic index)",
     text="Verification and decryption use exactly the key whose kid equals the token's (unknown kid -> invalid-key-id error, no kid only for a one-key set); producing "
-         "with a kid uses that key, without a kid picks among the keys of the algorithm's type, records its kid and the public set consumes the token; set export/import "
-         "keeps every key and every key has a kid.", ref="DESIGN.md §4 C14")
+         "with a kid (protected, shared unprotected or per-recipient header) uses that key, without a kid picks among the keys of the algorithm's type, records its kid and the public set consumes the token; set export/import "
+         "keeps every key and every key has a kid; import_key_set keeps every entry with or without kid.", ref="DESIGN.md §4 C14")
 CLAIMS["C18"] = dict(engine="E1", technique="CrossHair symbolic execution (z3) of the encryption pipeline and key generators with the RNGs replaced by a recording fresh-value source; inductive freshness argument",
     text="In every call each IV, CEK, key-wrap IV, PBES2 salt and ephemeral key is a value drawn during that call from secrets/os.urandom/the key generator, of exactly "
          "the required size or on the recipient's curve, no draw serves two roles, two calls and two recipients never share a value; generated keys receive the requested "
          "size/curve. Statistical quality is outside the claim.", ref="DESIGN.md §4 C18")
 CLAIMS["C20"] = dict(engine="E1", technique="CrossHair symbolic execution (z3) of 12 operation kinds on shared objects with a deep before/after snapshot of all shared mutable state (frame condition) and atomic-publication check of lazy views",
-    text="No operation writes any shared location (algorithm singletons, registries, class tables, module containers, keys, key sets) except the idempotent, "
+    text="No operation writes any shared location (algorithm singletons, the module default and caller-made registry objects shared between calls, class tables, module containers, keys, key sets) except the idempotent, "
          "completely-published lazy JWK view / kid / cached public key of a Key; repeating a call and running another call first give the same outcomes. Independence and "
          "thread-safety follow from the empty write set.", ref="DESIGN.md §4 C20")
 
